@@ -27,6 +27,7 @@ type Global struct {
 	modsets   map[*ssa.Function]map[string]modInfo
 	modBusy   map[*ssa.Function]bool
 	busyHits  int
+	fnKeyIDs  map[string]int
 	heapKinds map[string]string
 	repo      string
 	fnIDs     map[*ssa.Function]int
@@ -295,15 +296,52 @@ func (g *Global) unboxFn(tr *Tr, tkey string, payload string, lfs []leaf) []stri
 	return out
 }
 
+// funcIDByKey: function values are identified by the source-level function (a bound method value x.m and the method m
+// itself share the identity).
+func (g *Global) funcIDByKey(key string, f *ssa.Function) string {
+	if i := strings.Index(key, "#"); i >= 0 {
+		key = key[:i]
+	}
+	if g.fnKeyIDs == nil {
+		g.fnKeyIDs = map[string]int{}
+	}
+	id, ok := g.fnKeyIDs[key]
+	if !ok {
+		id = len(g.fnKeyIDs) + 1
+		g.fnKeyIDs[key] = id
+	}
+	return fmt.Sprint(id)
+}
+
 func (g *Global) funcID(tr *Tr, fv *FnV) string {
+	key := g.funcKey(fv.Fn)
+	if strings.Contains(fv.Fn.Synthetic, "bound method") {
+		// funcKey of the wrapper: pkg.Type.m#bound method wrapper ...; strip to the method
+		if fv.Fn.Object() != nil {
+			if fn, ok := fv.Fn.Object().(*types.Func); ok {
+				if rf := g.prog.FuncValue(fn); rf != nil {
+					key = g.funcKey(rf)
+				}
+			}
+		}
+	}
+	_ = key
 	id, ok := g.fnIDs[fv.Fn]
 	if !ok {
 		id = len(g.fnIDs) + 1
 		g.fnIDs[fv.Fn] = id
 	}
-	if len(fv.Bind) > 0 {
+	if true {
+		if len(fv.Bind) > 0 && !strings.Contains(fv.Fn.Synthetic, "bound method") {
+			panic(subsetErr("closure with bindings stored as a value: " + fv.Fn.Name()))
+		}
+		return g.funcIDByKey(key, fv.Fn)
+	}
+	if len(fv.Bind) > 0 && !strings.Contains(fv.Fn.Synthetic, "bound method") {
 		panic(subsetErr("closure with bindings stored as a value: " + fv.Fn.Name()))
 	}
+	// a bound method value (x.m) is identified by the method alone; the typestate invariant of the owning object
+	// (wf_raft: r.tick is bound to r itself) says which receiver it is bound to
 	return fmt.Sprint(id)
 }
 
